@@ -257,7 +257,7 @@ def eval_const_operand(fn, defs, op):
     return None
 
 
-def dialect_for_version(f, defs, vloc, v):
+def dialect_for_version(f, defs, vloc, v, accept=None):
     """(ctor path, flags) of the `Dialect::new` call reached when the version local has value v; "ambiguous" when paths for
     that value construct different dialects; None when none is constructed."""
     vcopies = {vloc}
@@ -312,7 +312,7 @@ def dialect_for_version(f, defs, vloc, v):
             else:
                 env[s["pl"]["l"]] = x
         t = blk["t"]
-        if t["k"] == "call" and (callee_of(t) or "").endswith("Dialect::new"):
+        if t["k"] == "call" and (callee_of(t) or "").endswith("Dialect::new") and (accept is None or accept(bb, t)):
             fl_ = val(t["args"][0]) if t["args"] else None
             if fl_ is None and t["args"]:
                 fl_ = eval_const_operand(f, defs, t["args"][0])
@@ -629,13 +629,22 @@ def run(tier="quick", replay=None):
         g = inline.inlined(prog, g0, pred=lambda h: base_p(h) and inline.same_module(g0, h) and len(h.blocks) <= 60, depth=2)
         gdefs = Defs(g)
         gv = None
+        ctor_blocks = [bbx for bbx, tx in g.calls() if (callee_of(tx) or "").endswith("Dialect::new")]
         for bbx, tx in g.calls():
-            if (callee_of(tx) or "").endswith("unwrap_or") and g.local_ty(tx["dest"]["l"]) == "usize":
+            # the version read that governs the choice: a usize produced by unwrap_or(default) that dominates the constructors
+            if (callee_of(tx) or "").endswith("unwrap_or") and g.local_ty(tx["dest"]["l"]) == "usize" and gv is None \
+                    and ctor_blocks and all(g.dominates(bbx, cb) for cb in ctor_blocks):
                 gv = tx["dest"]["l"]
         sel = {}
+        # only dialects that become the receiver of the delegating `Dialect::op` call count (helpers may build others)
+        gfl = Flow(g)
+        recv_src = set()
+        for bbx, tx in g.calls():
+            if (tx.get("callee") or "").endswith("dialect::Dialect::op") and tx["args"] and op_local(tx["args"][0]) is not None:
+                recv_src |= gfl.back([op_local(tx["args"][0])])
         if gv is not None:
             for v in range(0, maxver + 1):
-                sel[v] = dialect_for_version(g, gdefs, gv, v)
+                sel[v] = dialect_for_version(g, gdefs, gv, v, accept=lambda bb, t: t["dest"]["l"] in recv_src)
         ok = gv is not None and all(isinstance(sel.get(v), tuple) for v in sel) and \
             sel.get(0, ("",))[0].endswith("OriginalDialect::new") and \
             all(sel[v][0].endswith("ChiaDialect::new") for v in sel if v > 0)
@@ -761,6 +770,15 @@ def run(tier="quick", replay=None):
     # ---------------- STEP machine and literal helpers ---------------------------
     opcode_of = {r["name"]: be_int(r["bytes"]) for r in kw}
     f = prog.fn("compiler::clvm::run_step")
+    if f is not None:
+        # constants may live in a private classification helper (e.g. an enum built from the opcode): inline those
+        import inline
+        _f0 = f
+        _bp = inline.default_pred(prog, _f0)
+        _keep = {"compiler::clvm::choose_path", "compiler::clvm::apply_op", "compiler::clvm::translate_head", "compiler::clvm::eval_args",
+                 "compiler::clvm::atom_value", "compiler::clvm::combine", "compiler::clvm::truthy", "compiler::clvm::run",
+                 "compiler::clvm::convert_to_clvm_rs", "compiler::clvm::convert_from_clvm_rs", "compiler::clvm::generate_argument_refs"}
+        f = inline.inlined(prog, _f0, pred=lambda g: _bp(g) and g.path not in _keep, depth=2)
     labelled = 0
     if f is None:
         R.viol("R20.STEP", "R20.STEP|anchor-lost|run_step", "compiler::clvm", "anchor lost: run_step")
